@@ -52,7 +52,9 @@ func (g *pgen) intE(d int, vars []string) Node {
 			return lst(sym("let"), vec(sym(v), g.intE(d-1, vars)), g.anyE(d-2, append(vars, v)), g.intE(d-1, append(vars, v)))
 		},
 		func() Node { return lst(sym("do"), g.anyE(d-2, vars), g.intE(d-1, vars)) },
-		func() Node { return lst(lst(sym("fn"), vec(sym("a"), sym("b")), g.intE(d-1, append(vars, "a", "b"))), g.intE(d-1, vars), g.intE(d-1, vars)) },
+		func() Node {
+			return lst(lst(sym("fn"), vec(sym("a"), sym("b")), g.intE(d-1, append(vars, "a", "b"))), g.intE(d-1, vars), g.intE(d-1, vars))
+		},
 		func() Node { return lst(sym("count"), g.listE(d-1, vars)) },
 		func() Node { return lst(sym("sum-to"), lst(sym("-"), num(g.r.Intn(5)), num(1)), g.intE(d-2, vars)) },
 		func() Node { return lst(sym("twice"), sym("inc"), g.intE(d-1, vars)) },
@@ -61,11 +63,15 @@ func (g *pgen) intE(d int, vars []string) Node {
 			return lst(sym("try"), g.throwy(d-1, vars), lst(sym("catch"), sym("e"), lst(sym("trace!"), kw("caught")), g.intE(d-2, vars)),
 				lst(sym("finally"), lst(sym("trace!"), kw("fin"))))
 		},
-		func() Node { return lst(sym("cond"), g.boolE(d-1, vars), g.intE(d-1, vars), kw("else"), g.intE(d-1, vars)) },
+		func() Node {
+			return lst(sym("cond"), g.boolE(d-1, vars), g.intE(d-1, vars), kw("else"), g.intE(d-1, vars))
+		},
 		func() Node { return lst(sym("->"), g.intE(d-1, vars), sym("inc"), lst(sym("+"), g.intE(d-2, vars))) },
 		func() Node { return lst(sym("swap!"), sym("cell"), sym("+"), g.intE(d-1, vars)) },
 		func() Node { return lst(sym("unless"), g.boolE(d-1, vars), g.intE(d-1, vars), g.intE(d-1, vars)) },
-		func() Node { return lst(sym("apply"), sym("+"), lst(sym("list"), g.intE(d-1, vars), g.intE(d-1, vars))) },
+		func() Node {
+			return lst(sym("apply"), sym("+"), lst(sym("list"), g.intE(d-1, vars), g.intE(d-1, vars)))
+		},
 	)
 }
 
@@ -91,7 +97,9 @@ func (g *pgen) listE(d int, vars []string) Node {
 		func() Node { return lst(sym("list"), g.intE(d-1, vars), g.anyE(d-1, vars)) },
 		func() Node { return lst(sym("cons"), g.anyE(d-1, vars), g.listE(d-1, vars)) },
 		func() Node { return lst(sym("rest"), g.listE(d-1, vars)) },
-		func() Node { return lst(sym("map"), lst(sym("fn"), vec(sym("a")), g.intE(d-2, append(vars, "a"))), vec(num(1), num(2))) },
+		func() Node {
+			return lst(sym("map"), lst(sym("fn"), vec(sym("a")), g.intE(d-2, append(vars, "a"))), vec(num(1), num(2)))
+		},
 		func() Node { return lst(sym("concat"), g.listE(d-1, vars), g.listE(d-1, vars)) },
 		func() Node {
 			return lst(sym("quasiquote"), lst(sym("p"), lst(sym("unquote"), g.intE(d-1, vars)), lst(sym("splice-unquote"), g.listE(d-1, vars)), vec(sym("q"), lst(sym("unquote"), g.anyE(d-2, vars)))))
@@ -108,7 +116,9 @@ func (g *pgen) throwy(d int, vars []string) Node {
 		func() Node { return g.intE(d, vars) },
 		func() Node { return lst(sym("nth"), g.listE(d-1, vars), num(7)) },
 		func() Node { return lst(sym("deep-throw"), num(g.r.Intn(3)), g.anyE(d-1, vars)) },
-		func() Node { return lst(sym("do"), lst(sym("trace!"), kw("before")), lst(sym("undefined-function"), num(1))) },
+		func() Node {
+			return lst(sym("do"), lst(sym("trace!"), kw("before")), lst(sym("undefined-function"), num(1)))
+		},
 		func() Node { return lst(sym("raise!")) },
 	)
 }
@@ -123,6 +133,127 @@ func (g *pgen) anyE(d int, vars []string) Node {
 		return []Node{kw("k"), {T: "str", S: "s"}, {T: "nil"}, lst(sym("quote"), sym("sy"))}[g.r.Intn(4)]
 	}
 	return g.intE(d, vars)
+}
+
+// ---- mode "coll": random compositions of the collection builtins (C13), as nested calls
+func (g *pgen) collE(d int) Node {
+	q := func(n Node) Node { return lst(sym("quote"), n) }
+	leaf := func() Node {
+		return []Node{vec(num(1), num(2), num(3)), q(lst(num(4), num(5))), {T: "map", M: NodeMap{"ʞa": num(1), "b": num(2)}}, vec(),
+			q(lst()), {T: "nil"}, {T: "set", M: NodeMap{"ʞa": nilN, "s": nilN}}, vec(vec(num(1)), vec(num(2), num(3))),
+			{T: "map", M: NodeMap{"ʞa": {T: "map", M: NodeMap{"ʞb": num(7)}}}}}[g.r.Intn(9)]
+	}
+	if d <= 0 {
+		return leaf()
+	}
+	key := func() Node { return []Node{kw("a"), kw("b"), {T: "str", S: "b"}, kw("z")}[g.r.Intn(4)] }
+	small := func() Node { return num(g.r.Intn(5) - 1) }
+	return g.pick(
+		leaf,
+		func() Node { return lst(sym("conj"), g.collE(d-1), small()) },
+		func() Node { return lst(sym("cons"), small(), g.collE(d-1)) },
+		func() Node { return lst(sym("concat"), g.collE(d-1), g.collE(d-1)) },
+		func() Node { return lst(sym("rest"), g.collE(d-1)) },
+		func() Node { return lst(sym("vec"), g.collE(d-1)) },
+		func() Node { return lst(sym("seq"), g.collE(d-1)) },
+		func() Node { return lst(sym("take"), small(), g.collE(d-1)) },
+		func() Node { return lst(sym("drop"), small(), g.collE(d-1)) },
+		func() Node { return lst(sym("take-last"), small(), g.collE(d-1)) },
+		func() Node { return lst(sym("drop-last"), small(), g.collE(d-1)) },
+		func() Node { return lst(sym("subvec"), g.collE(d-1), small(), small()) },
+		func() Node { return lst(sym("assoc"), g.collE(d-1), key(), small()) },
+		func() Node { return lst(sym("assoc"), g.collE(d-1), small(), small()) },
+		func() Node { return lst(sym("dissoc"), g.collE(d-1), key()) },
+		func() Node { return lst(sym("merge"), g.collE(d-1), g.collE(d-1)) },
+		func() Node { return lst(sym("get"), g.collE(d-1), key()) },
+		func() Node { return lst(sym("nth"), g.collE(d-1), small()) },
+		func() Node { return lst(sym("first"), g.collE(d-1)) },
+		func() Node { return lst(sym("count"), g.collE(d-1)) },
+		func() Node { return lst(sym("list"), g.collE(d-1), g.collE(d-1)) },
+		func() Node { return lst(sym("map"), sym("inc"), lst(sym("range"), small(), small())) },
+		func() Node { return lst(sym("apply"), sym("list"), g.collE(d-1)) },
+		func() Node { return lst(sym("get-in"), g.collE(d-1), vec(key(), key())) },
+		func() Node { return lst(sym("assoc-in"), g.collE(d-1), vec(key(), key()), small()) },
+		func() Node { return lst(sym("update"), g.collE(d-1), key(), sym("identity")) },
+		func() Node { return lst(sym("contains?"), g.collE(d-1), key()) },
+		func() Node { return lst(sym("empty?"), g.collE(d-1)) },
+		func() Node { return lst(sym("set"), g.collE(d-1)) },
+		func() Node {
+			return lst(sym("rename-keys"), g.collE(d-1), Node{T: "map", M: NodeMap{"ʞa": kw("b"), "ʞb": kw("a")}})
+		},
+		func() Node { return lst(sym("="), g.collE(d-1), g.collE(d-1)) },
+	)
+}
+
+// ---- mode "hist": a long history of collection-producing operations with fan-out (C02); after
+// every step EVERY earlier name is traced, so that a changed value shows in the effect log
+func (g *pgen) history(n int) []Node {
+	forms := []Node{lst(sym("def"), sym("h0"), vec(num(1), num(2), num(3))), lst(sym("def"), sym("h1"), lst(sym("list"), num(1), num(2))),
+		lst(sym("def"), sym("h2"), Node{T: "map", M: NodeMap{"ʞa": num(1)}})}
+	kinds := []string{"seq", "seq", "map"} // approximate kind of every name, to keep most steps in the builtins' domain
+	pickK := func(k string) Node {
+		var idx []int
+		for i, kk := range kinds {
+			if kk == k {
+				idx = append(idx, i)
+			}
+		}
+		if len(idx) == 0 || g.r.Intn(12) == 0 { // now and then a wrong kind: the step must fail cleanly
+			return sym(fmt.Sprintf("h%d", g.r.Intn(len(kinds))))
+		}
+		return sym(fmt.Sprintf("h%d", idx[g.r.Intn(len(idx))]))
+	}
+	for i := 0; i < n; i++ {
+		var e Node
+		kind := "seq"
+		switch g.r.Intn(17) {
+		case 0:
+			e = lst(sym("conj"), pickK("seq"), num(10+i))
+		case 1:
+			e = lst(sym("concat"), pickK("seq"), pickK("seq"))
+		case 2:
+			e = lst(sym("subvec"), lst(sym("vec"), pickK("seq")), num(0), num(1))
+		case 3:
+			e = lst(sym("rest"), pickK("seq"))
+		case 4:
+			e = lst(sym("vec"), pickK("seq"))
+		case 5:
+			e = lst(sym("cons"), num(20+i), pickK("seq"))
+		case 6:
+			e = lst(sym("take"), num(2), pickK("seq"))
+		case 7:
+			e = lst(sym("drop"), num(1), pickK("seq"))
+		case 8:
+			e, kind = lst(sym("assoc"), pickK("map"), kw("k"), num(i)), "map"
+		case 9:
+			e, kind = lst(sym("dissoc"), pickK("map"), kw("a")), "map"
+		case 10:
+			e, kind = lst(sym("merge"), pickK("map"), pickK("map")), "map"
+		case 11:
+			e = lst(sym("quasiquote"), lst(lst(sym("splice-unquote"), pickK("seq")), num(30+i)))
+		case 12:
+			k := []string{"seq", "map"}[g.r.Intn(2)]
+			e, kind = lst(sym("with-meta"), pickK(k), Node{T: "map", M: NodeMap{"ʞm": num(1)}}), k
+		case 13:
+			e = lst(sym("apply"), sym("list"), pickK("seq"))
+		case 14:
+			e = lst(sym("map"), sym("identity"), pickK("seq"))
+		case 15:
+			e, kind = lst(sym("conj"), pickK("map"), kw("c"), pickK("seq")), "map"
+		default:
+			e, kind = lst(sym("assoc-in"), pickK("map"), vec(kw("p"), kw("q")), num(i)), "map"
+		}
+		name := fmt.Sprintf("h%d", len(kinds))
+		// a failing step (wrong kind) binds a marker
+		forms = append(forms, lst(sym("def"), sym(name), lst(sym("try"), e, lst(sym("catch"), sym("err"), kw("failed")))))
+		kinds = append(kinds, kind)
+		all := []Node{sym("list")}
+		for k := range kinds {
+			all = append(all, sym(fmt.Sprintf("h%d", k)))
+		}
+		forms = append(forms, lst(sym("trace!"), Node{T: "list", Xs: all}))
+	}
+	return forms
 }
 
 var progPrelude = []string{
@@ -140,6 +271,7 @@ func cmdProgs(args []string) {
 	seed := fs.Int64("seed", 1, "seed")
 	depth := fs.Int("depth", 6, "maximal expression depth")
 	out := fs.String("out", "progs.ndjson", "trace file")
+	mode := fs.String("mode", "prog", "prog | coll | hist")
 	fs.Parse(args)
 	g := &pgen{r: rand.New(rand.NewSource(*seed))}
 	ns, _, err := NewLoadedEnv()
@@ -166,6 +298,14 @@ func cmdProgs(args []string) {
 		d := 2 + g.r.Intn(*depth-1)
 		nforms := 1 + g.r.Intn(2)
 		forms := append([]Node{}, pre...)
+		switch *mode {
+		case "coll":
+			progs[i] = append(forms, lst(sym("trace!"), g.collE(d)))
+			continue
+		case "hist":
+			progs[i] = append(forms, g.history(4+g.r.Intn(*depth*4))...)
+			continue
+		}
 		for k := 0; k < nforms; k++ {
 			if g.r.Intn(4) == 0 {
 				forms = append(forms, g.throwy(d, nil)) // may fail, uncaught, at top level
